@@ -16,10 +16,10 @@ import itertools, json, os, sys, threading
 from vlib import *
 
 FLAGS = ['escape_vtab', 'key_overread', 'container_key', 'null_atom', 'event_data_self']
-CLASS_OF_FLAG = {'escape_vtab': 'escape-vtab', 'key_overread': 'key-overread', 'container_key': 'container-key',
+CLASS_OF_FLAG = {'escape_vtab': 'escape-vtab', 'key_overread': 'key-overread', 'container_key': 'unguarded-stacks',
                  'null_atom': 'empty-as-null', 'event_data_self': 'event-data'}
 ERR_KIND = [(b'not enough tokens', '1'), (b'invalid character', '2'), (b'not a full JSON packet', '3'),
-            (b'object key is neither', '4')]
+            (b'unbalanced structure', '4')]
 
 
 def vecstr(vec):
@@ -357,8 +357,10 @@ def probe_tables(vdriver):
     if rc != 0 or len(o) != len(lines):
         raise BuildError('vdriver failed on the escape probes: rc=%s %s' % (rc, e[-500:]))
     unh = lambda s: [] if s == '-' else list(bytes.fromhex(s))
+    import hashlib
     return {'escape': [unh(x) for x in o[:256]], 'unescape_after_backslash': [unh(x) for x in o[256:512]],
-            'unescape_plain': [unh(x) for x in o[512:768]]}
+            'unescape_plain': [unh(x) for x in o[512:768]],
+            'source_sha1': hashlib.sha1(open(REPO + '/src/uscxml/messages/Data.cpp', 'rb').read()).hexdigest()}
 
 
 WIT = {
@@ -602,7 +604,7 @@ def run(c):
             nontriv.add(('parse', t))
         clean = o.startswith('OK ') or o.startswith('ERR ')
         if mo_.startswith('OOB'):
-            cls = {'1': 'key-overread', '2': 'container-key'}.get(mo_.split()[1], 'oob-' + mo_.split()[1])
+            cls = {'1': 'key-overread', '2': 'unguarded-stacks', '3': 'unguarded-stacks'}.get(mo_.split()[1], 'oob-' + mo_.split()[1])
             if not clean:
                 bump('parse_oob_observed_crash')
             else:
